@@ -13,7 +13,7 @@ import (
 
 func init() {
 	props["C08"] = &propDef{
-		rule: "cases = (a) synthetic files with an mdat (8/16-byte header) at a random position: every interesting (start,size) range (each payload edge +-1, ranges ending at the last byte, zero length, outside) through ReadData and CopyData in lazy and in-memory mode; lazy Encode = header only; (b) CopySampleData over chunk ranges and over generated sample tables, all sample intervals, work buffers {0,1,2,3,5,7,8,64,4096}, both modes; (c) generated progressive files (1..3 tracks, mdat before/after moov, 32/64-bit mdat header, stco/co64) and the repository's test files decoded in both modes: same box tree, sizes, positions; (d) multi-GiB progressive files presented by a sparse io.ReadSeeker (8-byte mdat headers with size fields up to 0xffffffff, 16-byte headers with sizes around 2^32 and up to 2^36, moov before or after, co64 chunks at the first payload byte, across offset 2^32 and ending at the last payload byte) decoded lazily: tree, Size/HeaderSize/payload offset/File.Size against the header bytes in the file, Encode = that header, ReadData/CopyData/CopySampleData against the file bytes; non-trivial = distinct (file, query) whose range is non-empty",
+		rule: "cases = (a) synthetic files with an mdat (8/16-byte header) at a random position: every interesting (start,size) range (each payload edge +-1, ranges ending at the last byte, zero length, outside) through ReadData and CopyData in lazy and in-memory mode; lazy Encode = header only; (b) CopySampleData over chunk ranges and over generated sample tables, all sample intervals, work buffers {0,1,2,3,5,7,8,64,4096}, both modes; (c) generated progressive files (1..3 tracks, mdat before/after moov, 32/64-bit mdat header, stco/co64) and the repository's test files decoded in both modes: same box tree, sizes, positions; (d) multi-GiB progressive files presented by a sparse io.ReadSeeker (8-byte mdat headers with size fields up to 0xffffffff, 16-byte headers with sizes around 2^32 and up to 2^36, moov before or after, co64 chunks at the first payload byte, across offset 2^32 and ending at the last payload byte) decoded lazily: tree, Size/HeaderSize/payload offset/File.Size against the header bytes in the file, Encode = that header, ReadData/CopyData/CopySampleData against the file bytes; (e) the built examples/segmenter binary with and without -lazy (one file per track and -m) on generated progressive files whose chunk layout varies per track (one sample per chunk, all samples in one chunk, long chunks so that segment intervals lie inside one chunk, short random chunks, mixed; video with optional audio track; segment durations from 1 ms to longer than the track): byte-identical output files in both modes, bytes behind every mdat header = what the header and the truns announce = the bytes of the segment's samples in the input, and the copied payload of every lazily written segment against the model's chunk walk; non-trivial = distinct (file, query) whose range is non-empty",
 		gen:  genC08,
 		exec: execC08,
 	}
@@ -47,6 +47,8 @@ func execC08Inner(op string, a []string) string {
 	switch op {
 	case "md.virt":
 		return execC08Virt(a)
+	case "seg.cmp", "seg.copy":
+		return execC08Seg(op, a)
 	case "md.read":
 		F, _ := unhx(a[6])
 		m := mkMdat(a[0], F, atoi(a[1]), atoi(a[2]), atoi(a[3]))
@@ -398,6 +400,8 @@ func genC08(c *Ctx) {
 	}
 	// (d) multi-GiB files behind a sparse io.ReadSeeker (lazy mode only), see c08_virt.go
 	genC08Virt(c)
+	// (e) the segmenter tool with and without -lazy on generated progressive files of varied chunk layouts, see c08_seg.go
+	genC08Seg(c)
 }
 
 // compareLazyEager decodes d in both modes; with prefix > 0 the file sits behind `prefix` foreign bytes of a larger
